@@ -952,7 +952,10 @@ def c11_opts(r, ex):
 
 def c11_extra(ctx, cases):
     n = 80 if ctx.tier == "quick" else 900
-    return e2e_checks(ctx, "C11", ctx.seed + 11, n, c11_opts, "C11")
+    v1, k1 = e2e_checks(ctx, "C11", ctx.seed + 11, n, c11_opts, "C11")
+    # the reserved places / fixed flag / room offset of courses with ignored people: reader correspondence
+    v2, k2 = c12_extra(ctx, cases, for_c08=True)
+    return (v1 + v2)[:4], k1 + k2
 
 
 def irrelevant_edit(r, e, tid, ic, ia):
@@ -1012,7 +1015,7 @@ def irrelevant_edit(r, e, tid, ic, ia):
 
 
 def c13_extra(ctx, cases):
-    n = 70 if ctx.tier == "quick" else 800
+    n = 260 if ctx.tier == "quick" else 2500
     binpath = vlib.build_cli()
     r, exports = cde.make_exports(ctx, ctx.seed + 13, n, dense_assign=True)
     d = os.path.join(ctx.work, "cde")
